@@ -398,8 +398,9 @@ def main():
         "level": args.level,
         "coverage": {
             "evaluations": len(jobs),
-            "distinct_nontrivial": len([1 for (w, key) in work if w[2]["items"]]) + sum(len(w[2].get("raw", [])) for (w, key) in work),
-            "rule": "one evaluation = one scenario (call skeleton x error plan x capacities x shadow curve) executed symbolically through the real generic code; distinct_nontrivial = number of distinct solver queries (deduplicated by text) with at least one non-syntactic obligation",
+            "distinct_nontrivial": len(set(j["scenario"] for f, j in jobs if j["structural"] or j["groups"])),
+            "distinct_solver_queries": len([1 for (w, key) in work if w[2]["items"]]) + sum(len(w[2].get("raw", [])) for (w, key) in work),
+            "rule": "one evaluation = one scenario (call skeleton x error plan / deviation / field x capacities x shadow curve) in which the real generic code is executed (symbolically on the carriers, or natively for the concrete companions); a scenario is non-trivial when it produced at least one obligation or structural check; distinct = by scenario name; distinct_solver_queries = solver queries deduplicated by text with at least one non-syntactic obligation",
             "samples": samples,
             "obligations": obligations,
             "discharged": discharged,
